@@ -815,7 +815,20 @@ impl Database {
                     col_name,
                     table_name
                 );
-                table.add_column(column);
+                let old_columns: Vec<crate::schema::ColumnDef> = table.columns().to_vec();
+                let mut new_table = table.clone();
+                new_table.add_column(column);
+                drop(catalog_guard);
+
+                self.migrate_table_add_column(schema_name, table_name, &old_columns, &new_table)?;
+
+                let mut catalog_guard = self.shared.catalog.write();
+                let catalog = catalog_guard.as_mut().unwrap();
+                let schema = catalog
+                    .get_schema_mut(schema_name)
+                    .ok_or_else(|| eyre::eyre!("schema '{}' not found", schema_name))?;
+                schema.remove_table(table_name);
+                schema.add_table(new_table);
                 format!("added column '{}'", col_name)
             }
             AlterTableAction::DropColumn {
@@ -829,6 +842,112 @@ impl Database {
         Ok(ExecuteResult::AlterTable {
             action: action_desc,
         })
+    }
+
+    /// Rewrites every stored row of the table in the shape of `new_table` (the old columns plus
+    /// one appended column), giving the new column its DEFAULT (or NULL) in existing rows.
+    fn migrate_table_add_column(
+        &self,
+        schema_name: &str,
+        table_name: &str,
+        old_columns: &[crate::schema::ColumnDef],
+        new_table: &crate::schema::TableDef,
+    ) -> Result<()> {
+        use crate::btree::BTree;
+        use crate::constraints::ConstraintValidator;
+        use crate::schema::table::Constraint;
+        use crate::sql::decoder::{RecordDecoder, SimpleDecoder};
+
+        const BATCH_SIZE: usize = 10_000;
+
+        let new_columns = new_table.columns();
+        let new_idx = new_columns.len() - 1;
+        let fill_value = ConstraintValidator::new(new_table).default_for_column(new_idx);
+        let must_not_be_null = new_columns[new_idx].has_constraint(&Constraint::NotNull);
+
+        let old_column_types: Vec<crate::records::types::DataType> =
+            old_columns.iter().map(|c| c.data_type()).collect();
+        let decoder = SimpleDecoder::new(old_column_types);
+        let new_schema = create_record_schema(new_columns);
+
+        let mut file_manager_guard = self.shared.file_manager.write();
+        let file_manager = file_manager_guard.as_mut().unwrap();
+        let storage_arc = file_manager.table_data_mut(schema_name, table_name)?;
+        let mut storage = storage_arc.write();
+        let mut root_page = {
+            let page = storage.page(0)?;
+            TableFileHeader::from_bytes(page)?.root_page()
+        };
+
+        let all_keys: Vec<Vec<u8>> = {
+            let btree = BTree::new(&mut *storage, root_page)?;
+            let mut cursor = btree.cursor_first()?;
+            let mut keys = Vec::new();
+            while cursor.valid() {
+                keys.push(cursor.key()?.to_vec());
+                cursor.advance()?;
+            }
+            keys
+        };
+
+        ensure!(
+            all_keys.is_empty() || !(must_not_be_null && fill_value.is_null()),
+            "cannot add NOT NULL column '{}' without a DEFAULT to non-empty table '{}'",
+            new_columns[new_idx].name(),
+            table_name
+        );
+
+        for chunk in all_keys.chunks(BATCH_SIZE) {
+            let mut batch: Vec<(Vec<u8>, Vec<u8>)> = Vec::with_capacity(chunk.len());
+
+            {
+                let btree = BTree::new(&mut *storage, root_page)?;
+                for key in chunk {
+                    if let Some(handle) = btree.search(key)? {
+                        let value = btree.get_value(&handle)?;
+                        ensure!(
+                            value.len() >= RecordHeader::SIZE,
+                            "record too small: expected at least {} bytes for MVCC header, got {}",
+                            RecordHeader::SIZE,
+                            value.len()
+                        );
+                        let user_data = &value[RecordHeader::SIZE..];
+                        let values = decoder.decode(key, user_data)?;
+                        let mut owned_values: Vec<OwnedValue> =
+                            values.into_iter().map(OwnedValue::from).collect();
+                        owned_values.push(fill_value.clone());
+
+                        let new_user_record =
+                            OwnedValue::build_record_from_values(&owned_values, &new_schema)?;
+                        let mut wrapped_record =
+                            Vec::with_capacity(RecordHeader::SIZE + new_user_record.len());
+                        wrapped_record.extend_from_slice(&value[..RecordHeader::SIZE]);
+                        wrapped_record.extend_from_slice(&new_user_record);
+                        batch.push((key.clone(), wrapped_record));
+                    }
+                }
+            }
+
+            let mut btree_mut = BTree::new(&mut *storage, root_page)?;
+            for (key, _) in &batch {
+                btree_mut.delete(key)?;
+            }
+            for (key, new_value) in &batch {
+                btree_mut.insert(key, new_value)?;
+            }
+            root_page = btree_mut.root_page();
+        }
+
+        {
+            let page = storage.page_mut(0)?;
+            let header = TableFileHeader::from_bytes_mut(page)?;
+            if header.root_page() != root_page {
+                header.set_root_page(root_page);
+            }
+        }
+        storage.sync()?;
+
+        Ok(())
     }
 
     fn migrate_table_drop_column(
